@@ -17,6 +17,45 @@ pub fn probe_ids(m: &Model) -> Vec<usize> {
     ids
 }
 
+/// The provided Iterator methods (count, last, nth, size_hint, min, max,
+/// fold) of a public iterator must agree with the sequence `next` yields.
+pub fn iter_consistency<I, T>(o: &mut CaseOut, what: &str, mk: impl Fn() -> I)
+where
+    I: Iterator<Item = T>,
+    T: Ord + Clone + std::fmt::Debug,
+{
+    let mut it = mk();
+    let mut v: Vec<T> = Vec::new();
+    while let Some(x) = it.next() {
+        v.push(x);
+        if v.len() > 100_000 {
+            break;
+        }
+    }
+    let n = v.len();
+    let (lo, hi) = mk().size_hint();
+    let mut ok = mk().count() == n
+        && mk().last() == v.last().cloned()
+        && mk().max() == v.iter().cloned().max()
+        && mk().min() == v.iter().cloned().min()
+        && mk().fold(0usize, |a, _| a + 1) == n
+        && lo <= n
+        && hi.is_none_or(|h| n <= h);
+    for k in [0usize, n / 2, n.saturating_sub(1), n, n + 1] {
+        ok = ok && mk().nth(k) == v.get(k).cloned();
+    }
+    // partially consumed, then last / count
+    if n >= 2 {
+        let mut it = mk();
+        let _ = it.next();
+        ok = ok && it.last() == v.last().cloned();
+        let mut it = mk();
+        let _ = it.next();
+        ok = ok && it.count() == n - 1;
+    }
+    o.check(ok, &format!("{what}:provided-Iterator-methods-disagree-with-next"), || format!("next() yields {v:?}; count {} last {:?} size_hint {:?}", mk().count(), mk().last(), (lo, hi)));
+}
+
 fn strictly_ascending<T: Ord>(xs: &[T]) -> bool {
     xs.windows(2).all(|p| p[0] < p[1])
 }
